@@ -1,7 +1,7 @@
 (* Proofs about Model/Render.v: the printed token list lexes back to the intended tokens; every renderer
    passes its string fields through repr except the table prefixes; reading a rendered tree back gives the
    operation objects on the canonical class. *)
-From Coq Require Import String.
+From Coq Require Import String Ascii.
 From AV Require Import Model.PyRepr Model.Render Spec.C08 Proofs.PyReprProof.
 Open Scope N_scope.
 
@@ -206,3 +206,814 @@ Section Tokens.
     py_lex (print printable e) = Ok (tokens e).
   Proof. intros W V. apply lex_untok; assumption. Qed.
 End Tokens.
+
+(* ================================================================ part 2: every renderer goes through repr *)
+Notation avr := all_leaves_via_repr.
+Arguments kwlist : simpl never.
+Arguments okw : simpl never.
+
+Lemma forallb_map {A B} (f:B -> bool) (g:A -> B) l : forallb f (map g l) = forallb (fun x => f (g x)) l.
+Proof. induction l as [|a r IH]; [reflexivity|]. cbn [map forallb]. rewrite IH. reflexivity. Qed.
+
+Lemma avr_commas l : forallb via_repr_tok (commas l) = forallb (forallb via_repr_tok) l.
+Proof.
+  induction l as [|x r IH]; [reflexivity|]. cbn [commas forallb]. rewrite forallb_app. f_equal.
+  destruct r; [reflexivity|]. cbn [forallb] in *. exact IH.
+Qed.
+Lemma avr_dotted p : forallb via_repr_tok (dotted p) = true.
+Proof. induction p as [|x r IH]; [reflexivity|]. cbn [dotted forallb]. destruct r; [reflexivity|]. exact IH. Qed.
+Lemma avr_call p args : avr (PCall p args) = forallb avr args.
+Proof.
+  unfold avr, all_leaves_via_repr. cbn [toks]. rewrite forallb_app, avr_dotted. cbn [forallb andb].
+  rewrite forallb_app, avr_commas. cbn [forallb]. rewrite andb_true_r. rewrite forallb_map. reflexivity.
+Qed.
+Lemma avr_list l : avr (PList l) = forallb avr l.
+Proof.
+  unfold avr, all_leaves_via_repr. cbn [toks forallb andb].
+  rewrite forallb_app, avr_commas. cbn [forallb]. rewrite andb_true_r. rewrite forallb_map. reflexivity.
+Qed.
+Lemma avr_kw k v : avr (PKw k v) = avr v.
+Proof. reflexivity. Qed.
+Lemma avr_okw k x : forallb avr (okw k x) = match x with Some e => avr e | None => true end.
+Proof. destruct x; unfold okw; cbn [forallb]; [rewrite avr_kw, andb_true_r|]; reflexivity. Qed.
+Lemma avr_kwlist l : forallb avr (kwlist l) = forallb (fun kv => match snd kv with Some e => avr e | None => true end) l.
+Proof. induction l as [|[k x] r IH]; [reflexivity|]. unfold kwlist in *. cbn [flat_map]. rewrite forallb_app, avr_okw. cbn [forallb fst snd]. f_equal. exact IH. Qed.
+Lemma avr_map_Sr l : forallb avr (map Sr l) = true.
+Proof. induction l; auto. Qed.
+Lemma avr_map_id l : forallb avr (map id_ l) = true.
+Proof. induction l; auto. Qed.
+
+(* "match x with Some e => avr e | None => true end" for the optional keyword values *)
+Definition mo (x:option pyexpr) : bool := match x with Some e => avr e | None => true end.
+Lemma avr_kwlist' l : forallb avr (kwlist l) = forallb (fun kv => mo (snd kv)) l.
+Proof. apply avr_kwlist. Qed.
+Lemma avr_bool b : avr (PBool b) = true. Proof. destruct b; reflexivity. Qed.
+Lemma mo_opt_b x : mo (opt_b x) = true. Proof. destruct x as [[|]|]; reflexivity. Qed.
+Lemma mo_opt_s x : mo (opt_s x) = true. Proof. destruct x; reflexivity. Qed.
+Lemma mo_opt_i x : mo (opt_i x) = true. Proof. destruct x; reflexivity. Qed.
+Lemma mo_only_true x : mo (only_true x) = true. Proof. destruct x as [[|]|]; reflexivity. Qed.
+Lemma mo_when b e : avr e = true -> mo (when b e) = true. Proof. intros H. destruct b; [exact H|reflexivity]. Qed.
+Lemma mo_some e : avr e = true -> mo (Some e) = true. Proof. auto. Qed.
+Lemma mo_none : mo None = true. Proof. reflexivity. Qed.
+Lemma mo_if (b:bool) x : mo x = true -> mo (if b then None else x) = true. Proof. destruct b; auto. Qed.
+Lemma mo_tri {A} (f:A -> pyexpr) t : (forall a, avr (f a) = true) -> mo (tri_v f t) = true.
+Proof. intros H. destruct t; cbn; auto. Qed.
+Lemma mo_map {A} (f:A -> pyexpr) x : (forall a, avr (f a) = true) -> mo (option_map f x) = true.
+Proof. intros H. destruct x; cbn; auto. Qed.
+Lemma avr_Sr s : avr (Sr s) = true. Proof. reflexivity. Qed.
+Lemma avr_id i : avr (id_ i) = true. Proof. reflexivity. Qed.
+Lemma avr_or_none_s x : avr (or_none Sr x) = true. Proof. destruct x; reflexivity. Qed.
+Lemma avr_or_none_i x : avr (or_none id_ x) = true. Proof. destruct x; reflexivity. Qed.
+Lemma avr_rname c hb n : avr (rname c hb n) = true. Proof. destruct n; reflexivity. Qed.
+
+Ltac mo_solve :=
+  lazymatch goal with
+  | |- mo (opt_b _) = true => apply mo_opt_b
+  | |- mo (opt_s _) = true => apply mo_opt_s
+  | |- mo (opt_i _) = true => apply mo_opt_i
+  | |- mo (only_true _) = true => apply mo_only_true
+  | |- mo None = true => reflexivity
+  | |- mo (if _ then None else _) = true => apply mo_if; mo_solve
+  | |- mo (when _ _) = true => apply mo_when; mo_solve
+  | |- mo (Some _) = true => apply mo_some; mo_solve
+  | |- avr (PBool _) = true => apply avr_bool
+  | |- avr (Sr _) = true => reflexivity
+  | |- avr (id_ _) = true => reflexivity
+  | |- avr (or_none Sr _) = true => apply avr_or_none_s
+  | |- avr (or_none id_ _) = true => apply avr_or_none_i
+  | |- avr (rname _ _ _) = true => apply avr_rname
+  | |- avr (PList (map (PStr ViaRawQuote) _)) = true => fail
+  | |- _ => first [assumption | reflexivity]
+  end.
+Ltac kw_solve := rewrite avr_kwlist'; cbn [forallb fst snd]; repeat (apply andb_true_iff; split); try mo_solve.
+
+Lemma avr_repr_type c t : ty_ok t = true -> avr (repr_type c t) = true.
+Proof. intros H. unfold repr_type. destruct (ty_mod t); rewrite avr_call; exact H. Qed.
+Lemma avr_sd c d : avr (render_server_default c d) = true.
+Proof. destruct d as [s|s|s p]; try reflexivity. cbn [render_server_default]. rewrite avr_call. cbn [forallb]. rewrite avr_Sr. kw_solve. Qed.
+Lemma mo_oty c t : oty_ok t = true -> mo (option_map (repr_type c) t) = true.
+Proof. destruct t; cbn; [apply avr_repr_type|auto]. Qed.
+
+Lemma avr_column c x : col_ty_ok x = true -> avr (render_column c x) = true.
+Proof.
+  intros H. unfold render_column. rewrite avr_call, forallb_app, forallb_app.
+  cbn [forallb]. rewrite avr_id, (avr_repr_type c _ H).
+  assert (A: forall d, avr (render_server_default c d) = true) by (apply avr_sd).
+  apply andb_true_iff; split; [|apply andb_true_iff; split].
+  - reflexivity.
+  - unfold pos_default. destruct (c_default x) as [d|]; [destruct (positional_default d)|]; cbn [forallb]; rewrite ?A; reflexivity.
+  - kw_solve. unfold kw_default. destruct (c_default x) as [d|]; [destruct (positional_default d)|]; cbn; rewrite ?A; reflexivity.
+Qed.
+
+Lemma mo_opt_name c n : mo (opt_name c n) = true.
+Proof. unfold opt_name. apply mo_when, avr_rname. Qed.
+
+Lemma avr_constraint c k e : render_constraint c k = Some e -> avr e = true.
+Proof.
+  destruct k as [cols n|cols refs n ou od i d ua m|cols n d i|s n]; cbn [render_constraint].
+  - destruct cols as [|c0 cols]; [discriminate|]. remember (c0 :: cols) as cc. intros [= <-]. rewrite avr_call, forallb_app, avr_map_id. kw_solve. apply mo_opt_name.
+  - intros [= <-]. rewrite avr_call. cbn [app forallb]. rewrite ?forallb_app, !avr_list, avr_map_id, avr_map_Sr. cbn [andb]. kw_solve. apply mo_opt_name.
+  - intros [= <-]. rewrite avr_call, forallb_app, avr_map_id. kw_solve. apply mo_opt_name.
+  - intros [= <-]. rewrite avr_call. cbn [app forallb]. rewrite ?forallb_app, avr_Sr. cbn [andb]. kw_solve. apply mo_opt_name.
+Qed.
+
+Lemma avr_somes c l : forallb avr (somes (map (render_constraint c) l)) = true.
+Proof.
+  induction l as [|k r IH]; [reflexivity|]. cbn [map somes]. destruct (render_constraint c k) eqn:E; [|exact IH].
+  cbn [forallb]. rewrite (avr_constraint _ _ _ E). exact IH.
+Qed.
+
+Lemma avr_create_table c t : forallb col_ty_ok (t_cols t) = true -> t_prefixes t = [] -> avr (render_create_table c t) = true.
+Proof.
+  intros H P. unfold render_create_table. rewrite avr_call, forallb_app. cbn [forallb]. rewrite forallb_app, avr_somes, avr_id.
+  assert (A: forallb avr (map (render_column c) (t_cols t)) = true).
+  { rewrite forallb_map. rewrite forallb_forall in *. intros x Hx. apply avr_column. apply H; assumption. }
+  rewrite A, P. kw_solve.
+Qed.
+
+Lemma avr_map_ix c l : forallb avr (map (render_ixexpr c) l) = true.
+Proof. induction l as [|[i|s] r IH]; cbn [map forallb]; rewrite ?IH; reflexivity. Qed.
+
+Lemma avr_tbl_op c hb tn s o : tbl_op_ty_ok o = true -> avr (render_tbl_op c hb tn s o) = true.
+Proof.
+  intros H.
+  assert (A: forall d, avr (render_server_default c d) = true) by (apply avr_sd).
+  assert (T: forallb avr (if hb then [] else [id_ tn]) = true) by (destruct hb; reflexivity).
+  destruct o; cbn [render_tbl_op tbl_op_ty_ok] in *; rewrite avr_call, ?forallb_app; cbn [forallb];
+    rewrite ?T, ?avr_rname, ?avr_list, ?avr_map_id, ?avr_map_ix, ?avr_or_none_s, ?avr_or_none_i, ?avr_id; cbn [andb].
+  - rewrite (avr_column c _ H). kw_solve.
+  - kw_solve.
+  - apply andb_true_iff in H. destruct H as [H1 H2]. kw_solve;
+      try (apply mo_oty; assumption); try (apply mo_tri; first [exact A|exact avr_Sr]).
+    + destruct (a_nullable a); mo_solve.
+    + destruct (a_server_default a); try mo_solve. apply mo_map; exact A.
+  - kw_solve.
+  - kw_solve.
+  - kw_solve.
+  - kw_solve.
+  - kw_solve.
+  - kw_solve.
+  - kw_solve.
+Qed.
+
+(* the table lemma: with no table prefixes, every expression of a rendered script has all its leaves via repr *)
+Theorem render_all_via_repr c ops : forallb top_ty_ok ops = true -> forallb no_prefixes ops = true ->
+  forallb (fun st => forallb avr (stmt_exprs st)) (render_ops c ops) = true.
+Proof.
+  intros T P. unfold render_ops. induction ops as [|o r IH]; [reflexivity|].
+  cbn [forallb] in T, P. apply andb_true_iff in T, P. destruct T as [To Tr], P as [Po Pr].
+  cbn [flat_map]. rewrite forallb_app, (IH Tr Pr), andb_true_r.
+  destruct o as [t|n s ie ty|tn s o|tn s l]; cbn [render_top top_ty_ok no_prefixes] in *.
+  - cbn [forallb stmt_exprs]. rewrite avr_create_table; auto. destruct (t_prefixes t); [reflexivity|discriminate].
+  - cbn [forallb stmt_exprs]. unfold render_drop_table. rewrite avr_call, forallb_app. cbn [forallb]. rewrite avr_id. cbn [andb].
+    rewrite andb_true_r. kw_solve.
+  - cbn [forallb stmt_exprs]. rewrite avr_tbl_op; auto.
+  - destruct l as [|m l]; [reflexivity|]. destruct (cfg_batch c).
+    + cbn [forallb stmt_exprs]. rewrite andb_true_r. apply andb_true_iff. split.
+      * rewrite avr_call, forallb_app. cbn [forallb]. rewrite avr_id. cbn [andb]. kw_solve.
+      * rewrite forallb_map. rewrite forallb_forall in *. intros x Hx. apply avr_tbl_op. apply To; assumption.
+    + rewrite forallb_map. rewrite forallb_forall in *. intros x Hx. cbn [stmt_exprs forallb]. rewrite avr_tbl_op; auto.
+Qed.
+
+(* ================================================================ part 3: reading a rendered tree back *)
+Lemma str_eqb_refl s : str_eqb s s = true.
+Proof. apply list_eqbN_eq. reflexivity. Qed.
+Lemma str_eqb_eq a b : str_eqb a b = true -> a = b.
+Proof. apply list_eqbN_eq. Qed.
+
+(* comparisons of two renderer literals are decided by computation *)
+Ltac lit_cmp := repeat match goal with
+  | |- context [str_eqb (lit ?a) (lit ?b)] =>
+      let r := eval vm_compute in (str_eqb (lit a) (lit b)) in change (str_eqb (lit a) (lit b)) with r
+  end.
+
+Fixpoint assoc (k:string) (l:list (string * option pyexpr)) : option pyexpr :=
+  match l with
+  | [] => None
+  | (k', x) :: r => if String.eqb k k' then (match x with Some v => Some v | None => assoc k r end) else assoc k r
+  end.
+
+Lemma N_of_ascii_inj a b : N_of_ascii a = N_of_ascii b -> a = b.
+Proof. intros H. rewrite <- (ascii_N_embedding a), <- (ascii_N_embedding b), H. reflexivity. Qed.
+Lemma lit_inj a : forall b, lit a = lit b -> a = b.
+Proof.
+  induction a as [|x a IH]; destruct b as [|y b]; cbn; intros H; try discriminate; auto.
+  injection H as H1 H2. apply N_of_ascii_inj in H1. subst. f_equal. apply IH. exact H2.
+Qed.
+Lemma lit_eqb a b : str_eqb (lit a) (lit b) = String.eqb a b.
+Proof.
+  destruct (String.eqb_spec a b) as [->|N]; [apply str_eqb_refl|].
+  destruct (str_eqb (lit a) (lit b)) eqn:E; [|reflexivity]. apply str_eqb_eq, lit_inj in E. contradiction.
+Qed.
+
+Lemma get_kw_app k a b : get_kw k (a ++ b) = match get_kw k a with Some v => Some v | None => get_kw k b end.
+Proof.
+  induction a as [|e a IH]; [reflexivity|]. cbn [app get_kw]. destruct e; try exact IH.
+  destruct (str_eqb k k0); [reflexivity|exact IH].
+Qed.
+Lemma get_kw_kwlist k l : get_kw (lit k) (kwlist l) = assoc k l.
+Proof.
+  induction l as [|[k' x] r IH]; [reflexivity|]. unfold kwlist in *. cbn [flat_map fst snd assoc]. rewrite get_kw_app, IH.
+  unfold okw. destruct x as [v|]; cbn [get_kw].
+  - rewrite lit_eqb. destruct (String.eqb k k'); reflexivity.
+  - destruct (String.eqb k k'); reflexivity.
+Qed.
+
+Definition is_kw (e:pyexpr) : bool := match e with PKw _ _ => true | _ => false end.
+Definition no_kw (l:list pyexpr) : bool := forallb (fun e => negb (is_kw e)) l.
+Lemma get_kw_no_kw k l : no_kw l = true -> get_kw k l = None.
+Proof. induction l as [|e r IH]; [reflexivity|]. cbn [no_kw forallb]. intros H. apply andb_true_iff in H. destruct H as [H1 H2].
+  destruct e; try discriminate; cbn [get_kw]; apply IH; exact H2. Qed.
+Lemma kwarg_args k pos l : no_kw pos = true -> kwarg k (pos ++ kwlist l) = assoc k l.
+Proof. intros H. unfold kwarg. rewrite get_kw_app, get_kw_no_kw by assumption. apply get_kw_kwlist. Qed.
+
+Lemma kwlist_all_kw l : forallb is_kw (kwlist l) = true.
+Proof. induction l as [|[k x] r IH]; [reflexivity|]. unfold kwlist in *. cbn [flat_map]. rewrite forallb_app, IH. destruct x; reflexivity. Qed.
+Lemma nth_error_all_kw l : forallb is_kw l = true -> forall i, match nth_error l i with Some e => is_kw e = true | None => True end.
+Proof. induction l as [|e r IH]; intros H i; destruct i; cbn; auto. - cbn in H. apply andb_true_iff in H. tauto.
+  - apply IH. cbn in H. apply andb_true_iff in H. tauto. Qed.
+Lemma nth_pos_kws l i : forallb is_kw l = true -> nth_pos i l = None.
+Proof. intros H. unfold nth_pos. pose proof (nth_error_all_kw l H i) as N. destruct (nth_error l i) as [e|]; [|reflexivity].
+  destruct e; try discriminate; reflexivity. Qed.
+Lemma nth_pos_app_r pos l i : (length pos <= i)%nat -> nth_pos i (pos ++ kwlist l) = None.
+Proof.
+  intros H. unfold nth_pos. rewrite nth_error_app2 by assumption.
+  apply (nth_pos_kws (kwlist l) (i - length pos) (kwlist_all_kw l)).
+Qed.
+Lemma nth_pos_app_l pos r i e : nth_error pos i = Some e -> is_kw e = false -> nth_pos i (pos ++ r) = Some e.
+Proof.
+  intros H K. unfold nth_pos. rewrite nth_error_app1 by (apply nth_error_Some; congruence). rewrite H.
+  destruct e; try reflexivity; discriminate.
+Qed.
+Lemma positionals_kws l : forallb is_kw l = true -> positionals l = [].
+Proof. destruct l as [|e r]; [reflexivity|]. cbn. intros H. apply andb_true_iff in H. destruct H as [H _]. destruct e; try discriminate; reflexivity. Qed.
+Lemma positionals_app pos l : no_kw pos = true -> positionals (pos ++ kwlist l) = pos.
+Proof.
+  induction pos as [|e r IH]; cbn [app]; intros H.
+  - apply positionals_kws, kwlist_all_kw.
+  - cbn [no_kw forallb] in H. apply andb_true_iff in H. destruct H as [H1 H2]. destruct e; try discriminate; cbn [positionals]; rewrite IH; auto.
+Qed.
+Lemma opt_id {A} (x:option A) : match x with Some v => Some v | None => None end = x.
+Proof. destruct x; reflexivity. Qed.
+
+(* field by field *)
+Lemma rt_opt_b x : opt_arg as_bool (opt_b x) = Some x.
+Proof. destruct x as [[|]|]; reflexivity. Qed.
+Lemma rt_opt_s x : opt_arg as_str (opt_s x) = Some x.
+Proof. destruct x; reflexivity. Qed.
+Lemma rt_opt_s_truthy x : can_ostr x = true -> opt_arg as_str (opt_s (truthy_s x)) = Some x.
+Proof. destruct x as [[|]|]; cbn; intros; try discriminate; reflexivity. Qed.
+Lemma rt_opt_i x : match x with Some i => can_ident i | None => true end = true -> opt_arg as_ident (opt_i x) = Some x.
+Proof. destruct x as [[s [q|]]|]; cbn; intros; try discriminate; reflexivity. Qed.
+Lemma rt_opt_i_truthy x : can_oident x = true -> opt_arg as_ident (opt_i (truthy x)) = Some x.
+Proof. destruct x as [[[|ch s] [q|]]|]; cbn; intros; try discriminate; reflexivity. Qed.
+Lemma rt_only_true d : can_deferrable d = true -> opt_arg as_bool (only_true d) = Some d.
+Proof. destruct d as [[|]|]; cbn; intros; try discriminate; reflexivity. Qed.
+Lemma rt_id i : can_ident i = true -> as_ident (id_ i) = Some i.
+Proof. destruct i as [s [q|]]; cbn; intros; try discriminate; reflexivity. Qed.
+Lemma rt_ids l : forallb can_ident l = true -> mapM as_ident (map id_ l) = Some l.
+Proof. induction l as [|i r IH]; [reflexivity|]. cbn [forallb map mapM]. intros H. apply andb_true_iff in H. destruct H as [H1 H2].
+  rewrite (rt_id _ H1). cbn [obind]. rewrite (IH H2). reflexivity. Qed.
+Lemma rt_strs l : mapM as_str (map Sr l) = Some l.
+Proof. induction l as [|i r IH]; [reflexivity|]. cbn [map mapM as_str Sr obind]. rewrite IH. reflexivity. Qed.
+Lemma rt_cname c hb n : can_cname n = true -> as_cname c (rname c hb n) = Some n.
+Proof.
+  destruct n as [|[s [q|]]|s]; cbn; intros H; try discriminate; try reflexivity.
+  unfold aprefix. destruct hb.
+  - lit_cmp. rewrite str_eqb_refl, orb_true_r. reflexivity.
+  - lit_cmp. rewrite str_eqb_refl. reflexivity.
+Qed.
+Lemma rt_opt_name c n : can_cname n = true ->
+  match opt_name c n with None => Some NoName | Some e => as_cname c e end = Some n.
+Proof.
+  intros H. unfold opt_name, when. destruct (has_name n) eqn:E.
+  - apply rt_cname. exact H.
+  - destruct n as [|[[|ch s] q]|[|ch s]]; cbn in *; try discriminate; try reflexivity.
+    + apply andb_true_iff in H. destruct H; discriminate.
+Qed.
+Lemma rt_type c t : can_ty c t = true -> as_type c (repr_type c t) = Some t.
+Proof.
+  destruct t as [m p a]. unfold can_ty, repr_type. cbn [ty_mod ty_path ty_args]. destruct m as [|d]; intros H; cbn [as_type].
+  - rewrite str_eqb_refl. reflexivity.
+  - apply negb_true_iff in H. rewrite H. reflexivity.
+Qed.
+Lemma repr_type_not_none c t : repr_type c t <> PNone.
+Proof. unfold repr_type. destruct (ty_mod t); discriminate. Qed.
+Lemma rt_otype c t : match t with Some t => can_ty c t | None => true end = true ->
+  opt_arg (as_type c) (option_map (repr_type c) t) = Some t.
+Proof.
+  destruct t as [t|]; [|reflexivity]. intros H. cbn [option_map opt_arg].
+  pose proof (rt_type c t H) as R. pose proof (repr_type_not_none c t) as N.
+  destruct (repr_type c t); try contradiction; rewrite R; reflexivity.
+Qed.
+
+Lemma kwarg_cons k e r : is_kw e = false -> kwarg k (e :: r) = kwarg k r.
+Proof. intros H. unfold kwarg. destruct e; try discriminate; reflexivity. Qed.
+Lemma kwarg_kwlist k l : kwarg k (kwlist l) = assoc k l.
+Proof. apply get_kw_kwlist. Qed.
+Lemma nth_pos_cons_S e r i : nth_pos (S i) (e :: r) = nth_pos i r.
+Proof. reflexivity. Qed.
+Lemma nth_pos_0 e r : is_kw e = false -> nth_pos 0 (e :: r) = Some e.
+Proof. intros H. destruct e; try discriminate; reflexivity. Qed.
+Lemma nth_pos_kwlist i l : nth_pos i (kwlist l) = None.
+Proof. apply nth_pos_kws, kwlist_all_kw. Qed.
+Lemma is_kw_repr_type c t : is_kw (repr_type c t) = false.
+Proof. unfold repr_type. destruct (ty_mod t); reflexivity. Qed.
+Lemma is_kw_rname c hb n : is_kw (rname c hb n) = false.
+Proof. destruct n; reflexivity. Qed.
+Lemma is_kw_sd c d : is_kw (render_server_default c d) = false.
+Proof. destruct d; reflexivity. Qed.
+Lemma is_kw_or_none {A} (f:A -> pyexpr) x : (forall a, is_kw (f a) = false) -> is_kw (or_none f x) = false.
+Proof. intros H. destruct x; cbn; auto. Qed.
+
+Ltac kw_eval :=
+  repeat (rewrite kwarg_cons by first [reflexivity | apply is_kw_repr_type | apply is_kw_rname | apply is_kw_sd
+                                       | (apply is_kw_or_none; intros; reflexivity)]);
+  rewrite ?kwarg_kwlist; cbn [assoc String.eqb Ascii.eqb Bool.eqb andb]; rewrite ?opt_id.
+Ltac pos_eval :=
+  repeat first [ rewrite nth_pos_cons_S
+               | rewrite nth_pos_0 by first [reflexivity | apply is_kw_repr_type | apply is_kw_rname | apply is_kw_sd
+                                             | (apply is_kw_or_none; intros; reflexivity)]
+               | rewrite nth_pos_kwlist ].
+
+Lemma sd_not_none c d : render_server_default c d <> PNone.
+Proof. destruct d; discriminate. Qed.
+Lemma rt_default c d : can_sd d = true -> as_default c (render_server_default c d) = Some d.
+Proof.
+  destruct d as [s|s|s p]; cbn [can_sd render_server_default]; intros H.
+  - apply str_eqb_eq in H. rewrite H. reflexivity.
+  - cbn [as_default Sr]. rewrite str_eqb_refl. cbn [negb]. lit_cmp. reflexivity.
+  - cbn [as_default Sr]. rewrite str_eqb_refl. cbn [negb]. lit_cmp. kw_eval. rewrite rt_opt_b. reflexivity.
+Qed.
+Lemma rt_odefault c d : match d with Some d => can_sd d | None => true end = true ->
+  opt_arg (as_default c) (option_map (render_server_default c) d) = Some d.
+Proof.
+  destruct d as [d|]; [|reflexivity]. intros H. cbn [option_map opt_arg].
+  pose proof (rt_default c d H) as R. pose proof (sd_not_none c d) as N.
+  destruct (render_server_default c d); try contradiction; rewrite R; reflexivity.
+Qed.
+Lemma rt_tri_default c t : can_tri can_sd t = true -> tri_arg (as_default c) (tri_v (render_server_default c) t) = Some t.
+Proof.
+  destruct t as [| |d]; try reflexivity. cbn [can_tri tri_v tri_arg]. intros H.
+  pose proof (rt_default c d H) as R. pose proof (sd_not_none c d) as N.
+  destruct (render_server_default c d); try contradiction; rewrite R; reflexivity.
+Qed.
+Lemma rt_tri_str t : tri_arg as_str (tri_v Sr t) = Some t.
+Proof. destruct t; reflexivity. Qed.
+
+Lemma rt_column c x : can_column c x = true -> eval_column c (render_column c x) = Some x.
+Proof.
+  destruct x as [name ty dflt ai nu sy cm]. unfold can_column. cbn [c_name c_type c_default c_comment].
+  intros H. repeat (apply andb_true_iff in H; destruct H as [H ?]).
+  unfold eval_column, render_column. cbn [c_name c_type c_default c_autoinc c_nullable c_system c_comment sa_call].
+  rewrite str_eqb_refl. cbn [obind]. lit_cmp. cbn [negb].
+  assert (A0: forall r, nth_pos 0 (id_ name :: r) = Some (id_ name)) by reflexivity.
+  destruct dflt as [[s|s|s p]|]; cbn [pos_default kw_default positional_default render_server_default app];
+    pos_eval; cbn [obind]; rewrite (rt_id _ H), (rt_type c ty) by assumption; cbn [obind]; kw_eval.
+  - pose proof (rt_default c (SdStr s) H1) as R. cbn [render_server_default] in R. cbn [opt_arg Sr]. cbn [as_default Sr] in *.
+    apply str_eqb_eq in H1. rewrite H1. cbn [option_map obind]. rewrite rt_opt_b. cbn [obind as_bool].
+    destruct sy; cbn [when as_bool obind]; rewrite (rt_opt_s_truthy _ H0); reflexivity.
+  - cbn [opt_arg]. pose proof (rt_default c (SdText s) H1) as R. cbn [render_server_default] in R. rewrite R. cbn [option_map obind].
+    rewrite rt_opt_b. cbn [obind as_bool]. destruct sy; cbn [when as_bool obind]; rewrite (rt_opt_s_truthy _ H0); reflexivity.
+  - pose proof (rt_default c (SdComputed s p) H1) as R. cbn [render_server_default] in R. rewrite R. cbn [obind].
+    rewrite rt_opt_b. cbn [obind as_bool]. destruct sy; cbn [when as_bool obind]; rewrite (rt_opt_s_truthy _ H0); reflexivity.
+  - cbn [opt_arg obind]. rewrite rt_opt_b. cbn [obind as_bool]. destruct sy; cbn [when as_bool obind]; rewrite (rt_opt_s_truthy _ H0); reflexivity.
+Qed.
+
+Lemma no_kw_map_id l : no_kw (map id_ l) = true.
+Proof. induction l; auto. Qed.
+Lemma no_kw_app a b : no_kw (a ++ b) = no_kw a && no_kw b.
+Proof. apply forallb_app. Qed.
+
+Lemma rt_constraint c k e : can_tcons k = true -> render_constraint c k = Some e -> eval_constraint c e = Some k.
+Proof.
+  destruct k as [cols n|cols refs n ou od i d ua m|cols n d i|s n]; cbn [render_constraint can_tcons]; intros H.
+  - destruct cols as [|c0 cols]; [discriminate|]. remember (c0 :: cols) as cc.
+    repeat (apply andb_true_iff in H; destruct H as [H ?]).
+    intros [= <-]. unfold eval_constraint. cbn [sa_call]. rewrite str_eqb_refl. cbn [obind].
+    rewrite kwarg_args by apply no_kw_map_id. cbn [assoc String.eqb Ascii.eqb Bool.eqb andb]. rewrite opt_id.
+    rewrite rt_opt_name by assumption. cbn [obind]. lit_cmp.
+    rewrite positionals_app by apply no_kw_map_id. rewrite rt_ids by assumption. reflexivity.
+  - repeat (apply andb_true_iff in H; destruct H as [H ?]).
+    intros [= <-]. unfold eval_constraint. cbn [sa_call]. rewrite str_eqb_refl. cbn [obind app].
+    kw_eval. rewrite rt_opt_name by assumption. cbn [obind]. lit_cmp. pos_eval. cbn [obind as_list].
+    rewrite rt_ids, rt_strs by assumption. cbn [obind].
+    rewrite !rt_opt_s_truthy by assumption. cbn [obind]. rewrite rt_only_true by assumption. cbn [obind].
+    destruct ua; reflexivity.
+  - repeat (apply andb_true_iff in H; destruct H as [H ?]).
+    intros [= <-]. unfold eval_constraint. cbn [sa_call]. rewrite str_eqb_refl. cbn [obind].
+    rewrite !kwarg_args by apply no_kw_map_id. cbn [assoc String.eqb Ascii.eqb Bool.eqb andb]. rewrite !opt_id.
+    rewrite rt_opt_name by assumption. cbn [obind]. lit_cmp.
+    rewrite positionals_app by apply no_kw_map_id. rewrite rt_ids by assumption. cbn [obind].
+    rewrite rt_only_true, rt_opt_s_truthy by assumption. reflexivity.
+  - intros [= <-]. unfold eval_constraint. cbn [sa_call]. rewrite str_eqb_refl. cbn [obind app].
+    kw_eval. rewrite rt_opt_name by assumption. cbn [obind]. lit_cmp. pos_eval. reflexivity.
+Qed.
+
+Lemma render_constraint_some c k : can_tcons k = true -> exists e, render_constraint c k = Some e.
+Proof. destruct k as [cols n| | |]; cbn; try (eexists; reflexivity). destruct cols; [discriminate|]. intros _. eexists; reflexivity. Qed.
+Lemma is_column_call_column c x : is_column_call c (render_column c x) = true.
+Proof. unfold is_column_call, render_column. cbn [sa_call]. rewrite str_eqb_refl. lit_cmp. reflexivity. Qed.
+Lemma is_column_call_constraint c k e : render_constraint c k = Some e -> is_column_call c e = false /\ is_kw e = false.
+Proof.
+  destruct k as [cols n| | |]; cbn [render_constraint]; try destruct cols; try discriminate; intros [= <-];
+    unfold is_column_call; cbn [sa_call]; rewrite str_eqb_refl; lit_cmp; auto.
+Qed.
+
+Lemma rt_columns c l : forallb (can_column c) l = true -> mapM (eval_column c) (map (render_column c) l) = Some l.
+Proof. induction l as [|x r IH]; [reflexivity|]. cbn [forallb map mapM]. intros H. apply andb_true_iff in H. destruct H as [H1 H2].
+  rewrite rt_column by assumption. cbn [obind]. rewrite IH by assumption. reflexivity. Qed.
+Lemma rt_constraints c l : forallb can_tcons l = true -> mapM (eval_constraint c) (somes (map (render_constraint c) l)) = Some l.
+Proof. induction l as [|k r IH]; [reflexivity|]. cbn [forallb map]. intros H. apply andb_true_iff in H. destruct H as [H1 H2].
+  destruct (render_constraint_some c k H1) as [e E]. rewrite E. cbn [somes mapM]. rewrite (rt_constraint c k e H1 E). cbn [obind].
+  rewrite IH by assumption. reflexivity. Qed.
+Lemma filter_cols_cols c l : filter (is_column_call c) (map (render_column c) l) = map (render_column c) l.
+Proof. induction l as [|x r IH]; [reflexivity|]. cbn [map filter]. rewrite is_column_call_column, IH. reflexivity. Qed.
+Lemma filter_cols_cons c l : filter (is_column_call c) (somes (map (render_constraint c) l)) = [].
+Proof. induction l as [|k r IH]; [reflexivity|]. cbn [map somes]. destruct (render_constraint c k) eqn:E; [|exact IH].
+  cbn [somes filter]. destruct (is_column_call_constraint _ _ _ E) as [-> _]. exact IH. Qed.
+Lemma filter_ncols_cols c l : filter (fun e => negb (is_column_call c e)) (map (render_column c) l) = [].
+Proof. induction l as [|x r IH]; [reflexivity|]. cbn [map filter]. rewrite is_column_call_column. exact IH. Qed.
+Lemma filter_ncols_cons c l : filter (fun e => negb (is_column_call c e)) (somes (map (render_constraint c) l)) = somes (map (render_constraint c) l).
+Proof. induction l as [|k r IH]; [reflexivity|]. cbn [map somes]. destruct (render_constraint c k) eqn:E; [|exact IH].
+  cbn [somes filter]. destruct (is_column_call_constraint _ _ _ E) as [-> _]. cbn [negb]. rewrite IH. reflexivity. Qed.
+Lemma no_kw_cols c l : no_kw (map (render_column c) l) = true.
+Proof. induction l; auto. Qed.
+Lemma no_kw_cons c l : no_kw (somes (map (render_constraint c) l)) = true.
+Proof. induction l as [|k r IH]; [reflexivity|]. cbn [map somes]. destruct (render_constraint c k) eqn:E; [|exact IH].
+  cbn [somes no_kw forallb]. destruct (is_column_call_constraint _ _ _ E) as [_ ->]. exact IH. Qed.
+
+Lemma rt_prefixes l : mapM as_str (map (PStr ViaRawQuote) l) = Some l.
+Proof. induction l as [|i r IH]; [reflexivity|]. cbn [map mapM as_str obind]. rewrite IH. reflexivity. Qed.
+
+Lemma rt_create_table c t : can_table c t = true -> eval_create_table c (match render_create_table c t with PCall _ a => a | _ => [] end) = Some t.
+Proof.
+  destruct t as [name schema cols cons comment prefixes ine]. unfold can_table. cbn [t_name t_schema t_cols t_cons t_comment].
+  intros H. repeat (apply andb_true_iff in H; destruct H as [H ?]).
+  unfold render_create_table, eval_create_table. cbn [t_name t_schema t_cols t_cons t_comment t_prefixes t_if_not_exists].
+  set (pos := id_ name :: map (render_column c) cols ++ somes (map (render_constraint c) cons)).
+  assert (NK: no_kw pos = true).
+  { unfold pos. cbn [no_kw forallb]. change (forallb (fun e => negb (is_kw e)) ?l) with (no_kw l). rewrite no_kw_app, no_kw_cols, no_kw_cons. reflexivity. }
+  rewrite (nth_pos_app_l pos _ 0 (id_ name)) by reflexivity. cbn [obind]. rewrite rt_id by assumption. cbn [obind].
+  rewrite positionals_app by assumption. unfold pos at 1 2. cbn [tl].
+  rewrite !filter_app, filter_cols_cols, filter_cols_cons, filter_ncols_cols, filter_ncols_cons, app_nil_r. cbn [app].
+  rewrite rt_columns, rt_constraints by assumption. cbn [obind].
+  rewrite !kwarg_args by assumption. cbn [assoc String.eqb Ascii.eqb Bool.eqb andb]. rewrite !opt_id.
+  rewrite rt_opt_i_truthy, rt_opt_s_truthy by assumption. cbn [obind]. rewrite rt_opt_b.
+  destruct prefixes as [|p ps]; [reflexivity|]. cbn [as_list]. rewrite rt_prefixes. reflexivity.
+Qed.
+
+Lemma rt_ixexprs c l : forallb can_ixexpr l = true -> mapM (as_ixexpr c) (map (render_ixexpr c) l) = Some l.
+Proof.
+  induction l as [|[i|s] r IH]; [reflexivity| |]; cbn [forallb map mapM can_ixexpr render_ixexpr]; intros H.
+  - apply andb_true_iff in H. destruct H as [H1 H2]. destruct i as [s [q|]]; [discriminate|]. cbn [as_ixexpr id_ Sr i_s obind].
+    rewrite IH by assumption. reflexivity.
+  - cbn [as_ixexpr Sr]. rewrite str_eqb_refl. lit_cmp. cbn [andb obind]. rewrite IH by assumption. reflexivity.
+Qed.
+Lemma rt_or_none_s x : opt_arg as_str (Some (or_none Sr x)) = Some x.
+Proof. destruct x; reflexivity. Qed.
+Lemma rt_or_none_i x : match x with Some i => can_ident i | None => true end = true -> opt_arg as_ident (Some (or_none id_ x)) = Some x.
+Proof. destruct x as [[s [q|]]|]; cbn; intros; try discriminate; reflexivity. Qed.
+Lemma can_oident_weak x : can_oident x = true -> match x with Some i => can_ident i | None => true end = true.
+Proof. destruct x; cbn; [intros H; apply andb_true_iff in H; tauto|auto]. Qed.
+
+Ltac ev := unfold arg; pos_eval; kw_eval; cbn [obind].
+Ltac hyps H := repeat (apply andb_true_iff in H; let H' := fresh "H" in destruct H as [H H']).
+
+(* the table-level operations: non-batch *)
+Lemma rt_tbl_op_plain c tn s o btn bs : can_tbl_op c tn s o = true ->
+  match render_tbl_op c false tn s o with
+  | PCall [p; f] args => p = cfg_op c /\ eval_tbl_op c false btn bs f args = Some (tn, s, o)
+  | _ => False
+  end.
+Proof.
+  unfold can_tbl_op. intros H. apply andb_true_iff in H. destruct H as [H Ho]. apply andb_true_iff in H. destruct H as [Ht Hs].
+  pose proof (rt_opt_i_truthy s Hs) as RS.
+  destruct o; cbn [render_tbl_op aprefix app]; (split; [reflexivity|]); unfold eval_tbl_op; lit_cmp; cbn [app].
+  - ev. rewrite (rt_id _ Ht). cbn [obind]. rewrite rt_column by assumption. cbn [obind]. rewrite RS. reflexivity.
+  - ev. rewrite (rt_id _ Ht), (rt_id _ Ho). cbn [obind]. rewrite RS. reflexivity.
+  - unfold can_alter in Ho. rewrite !andb_true_iff in Ho. destruct Ho as [[[[[[A1 A2] A3] A4] A5] A6] A7].
+    ev. rewrite (rt_id _ Ht), (rt_id _ A1). cbn [obind]. rewrite RS. cbn [obind].
+    rewrite rt_otype by assumption. cbn [obind]. rewrite rt_tri_default by assumption. cbn [obind].
+    rewrite rt_opt_i by assumption. cbn [obind]. rewrite rt_otype by assumption. cbn [obind]. rewrite rt_opt_b. cbn [obind].
+    rewrite rt_tri_str. cbn [obind]. rewrite rt_opt_s. cbn [obind].
+    destruct a as [col et sd nn ty nu cm ec en ai esd]. cbn [a_nullable a_existing_nullable a_server_default a_existing_server_default a_autoincrement] in *.
+    assert (E1: opt_arg as_bool (match nu with None => opt_b en | Some _ => None end) = Some en).
+    { destruct nu; [destruct en; [discriminate|reflexivity]|apply rt_opt_b]. }
+    rewrite E1. cbn [obind]. rewrite rt_opt_b. cbn [obind].
+    assert (E2: opt_arg (as_default c) (match sd with Keep => option_map (render_server_default c) esd | _ => None end) = Some esd).
+    { destruct esd as [d|]; [|destruct sd; reflexivity]. apply andb_true_iff in A7. destruct A7 as [Hd Hk].
+      destruct sd; try discriminate. apply (rt_odefault c (Some d)). exact Hd. }
+    rewrite E2. reflexivity.
+  - rewrite !andb_true_iff in Ho. destruct Ho as [[A1 A2] A3].
+    ev. rewrite rt_cname by assumption. cbn [obind]. rewrite (rt_id _ Ht). cbn [obind as_list].
+    rewrite rt_ixexprs by assumption. cbn [obind]. rewrite RS. cbn [obind as_bool]. rewrite rt_opt_b.
+    destruct unique; [reflexivity|discriminate].
+  - ev. rewrite rt_cname by assumption. cbn [obind]. rewrite (rt_id _ Ht). cbn [obind]. rewrite RS. cbn [obind]. rewrite rt_opt_b. reflexivity.
+  - rewrite !andb_true_iff in Ho. destruct Ho as [[[A1 A2] A3] A4].
+    ev. rewrite rt_cname by assumption. cbn [obind]. rewrite (rt_id _ Ht). cbn [obind as_list].
+    rewrite rt_ids by assumption. cbn [obind]. rewrite RS. cbn [obind]. rewrite rt_only_true, rt_opt_s_truthy by assumption. reflexivity.
+  - rewrite !andb_true_iff in Ho. destruct Ho as [[[[A1 A2] A3] A4] A5].
+    ev. rewrite rt_cname by assumption. cbn [obind]. rewrite (rt_id _ Ht), (rt_id _ A2). cbn [obind as_list].
+    rewrite !rt_ids by assumption. cbn [obind]. rewrite !rt_opt_s. cbn [obind]. rewrite !rt_opt_b. cbn [obind].
+    destruct f as [fn fr fl fm fss frs fou fod fi fd fua fmm]; cbn [f_source_schema] in *. f_equal. f_equal. f_equal.
+    destruct s as [[ss [q|]]|], fss; cbn in A5; try discriminate; try reflexivity.
+    unfold ident_eqb in A5. cbn in A5. rewrite andb_true_r in A5. apply str_eqb_eq in A5. subst. reflexivity.
+  - rewrite !andb_true_iff in Ho. destruct Ho as [A1 A2].
+    ev. rewrite rt_cname by assumption. cbn [obind]. rewrite (rt_id _ Ht). cbn [obind].
+    rewrite rt_opt_i_truthy by assumption. cbn [obind]. rewrite RS. reflexivity.
+  - ev. rewrite (rt_id _ Ht). cbn [obind]. rewrite !rt_or_none_s. cbn [obind].
+    rewrite rt_or_none_i by (apply can_oident_weak; assumption). reflexivity.
+  - ev. rewrite (rt_id _ Ht). cbn [obind]. rewrite !rt_or_none_s. cbn [obind].
+    rewrite rt_or_none_i by (apply can_oident_weak; assumption). reflexivity.
+Qed.
+
+(* the table-level operations inside a batch_alter_table block *)
+Lemma rt_tbl_op_batch c tn s o : can_tbl_op c tn s o = true ->
+  match render_tbl_op c true tn s o with
+  | PCall [p; f] args => p = lit "batch_op" /\ eval_tbl_op c true tn s f args = Some (tn, s, o)
+  | _ => False
+  end.
+Proof.
+  unfold can_tbl_op. intros H. apply andb_true_iff in H. destruct H as [H Ho]. apply andb_true_iff in H. destruct H as [Ht Hs].
+  destruct o; cbn [render_tbl_op aprefix app]; (split; [reflexivity|]); unfold eval_tbl_op; lit_cmp; cbn [app].
+  - ev. rewrite rt_column by assumption. reflexivity.
+  - ev. rewrite (rt_id _ Ho). reflexivity.
+  - unfold can_alter in Ho. rewrite !andb_true_iff in Ho. destruct Ho as [[[[[[A1 A2] A3] A4] A5] A6] A7].
+    ev. rewrite (rt_id _ A1). cbn [obind].
+    rewrite rt_otype by assumption. cbn [obind]. rewrite rt_tri_default by assumption. cbn [obind].
+    rewrite rt_opt_i by assumption. cbn [obind]. rewrite rt_otype by assumption. cbn [obind]. rewrite rt_opt_b. cbn [obind].
+    rewrite rt_tri_str. cbn [obind]. rewrite rt_opt_s. cbn [obind].
+    destruct a as [col et sd nn ty nu cm ec en ai esd]. cbn [a_nullable a_existing_nullable a_server_default a_existing_server_default a_autoincrement] in *.
+    assert (E1: opt_arg as_bool (match nu with None => opt_b en | Some _ => None end) = Some en).
+    { destruct nu; [destruct en; [discriminate|reflexivity]|apply rt_opt_b]. }
+    rewrite E1. cbn [obind]. rewrite rt_opt_b. cbn [obind].
+    assert (E2: opt_arg (as_default c) (match sd with Keep => option_map (render_server_default c) esd | _ => None end) = Some esd).
+    { destruct esd as [d|]; [|destruct sd; reflexivity]. apply andb_true_iff in A7. destruct A7 as [Hd Hk].
+      destruct sd; try discriminate. apply (rt_odefault c (Some d)). exact Hd. }
+    rewrite E2. reflexivity.
+  - rewrite !andb_true_iff in Ho. destruct Ho as [[A1 A2] A3].
+    ev. rewrite rt_cname by assumption. cbn [obind as_list].
+    rewrite rt_ixexprs by assumption. cbn [obind as_bool]. rewrite rt_opt_b.
+    destruct unique; [reflexivity|discriminate].
+  - ev. rewrite rt_cname by assumption. cbn [obind]. rewrite rt_opt_b. reflexivity.
+  - rewrite !andb_true_iff in Ho. destruct Ho as [[[A1 A2] A3] A4].
+    ev. rewrite rt_cname by assumption. cbn [obind as_list].
+    rewrite rt_ids by assumption. cbn [obind]. rewrite rt_only_true, rt_opt_s_truthy by assumption. reflexivity.
+  - rewrite !andb_true_iff in Ho. destruct Ho as [[[[A1 A2] A3] A4] A5].
+    ev. rewrite rt_cname by assumption. cbn [obind]. rewrite (rt_id _ A2). cbn [obind as_list].
+    rewrite !rt_ids by assumption. cbn [obind]. rewrite !rt_opt_s. cbn [obind]. rewrite !rt_opt_b. cbn [obind].
+    destruct f as [fn fr fl fm fss frs fou fod fi fd fua fmm]; cbn [f_source_schema] in *.
+    assert (E: option_map i_s s = fss /\ option_map (fun x => mkId x None) (option_map i_s s) = s).
+    { destruct s as [[ss [q|]]|], fss; cbn in A5, Hs; try discriminate; try (split; reflexivity).
+      unfold ident_eqb in A5. cbn in A5. rewrite andb_true_r in A5. apply str_eqb_eq in A5. subst. split; reflexivity. }
+    destruct E as [E1 E2]. rewrite E2, E1. reflexivity.
+  - rewrite !andb_true_iff in Ho. destruct Ho as [A1 A2].
+    ev. rewrite rt_cname by assumption. cbn [obind].
+    rewrite rt_opt_i_truthy by assumption. reflexivity.
+  - ev. rewrite !rt_or_none_s. reflexivity.
+  - ev. rewrite !rt_or_none_s. reflexivity.
+Qed.
+
+Lemma render_tbl_op_name c hb tn s o :
+  match render_tbl_op c hb tn s o with
+  | PCall [p; f] _ => str_eqb f (lit "create_table") = false /\ str_eqb f (lit "drop_table") = false
+  | _ => True
+  end.
+Proof. destruct o; cbn [render_tbl_op]; lit_cmp; auto. Qed.
+
+Lemma mapM_app {A B} (f:A -> option B) l1 l2 r1 r2 : mapM f l1 = Some r1 -> mapM f l2 = Some r2 -> mapM f (l1 ++ l2) = Some (r1 ++ r2).
+Proof.
+  revert r1. induction l1 as [|a l1 IH]; intros r1 H1 H2.
+  - injection H1 as <-. exact H2.
+  - cbn [app mapM] in *. destruct (f a); [|discriminate]. cbn [obind] in *. destruct (mapM f l1) eqn:E; [|discriminate].
+    injection H1 as <-. rewrite (IH l eq_refl H2). reflexivity.
+Qed.
+
+Lemma eval_top_plain c tn s o : can_tbl_op c tn s o = true ->
+  eval_stmt c (SExpr (render_tbl_op c false tn s o)) = Some (TOp tn s o).
+Proof.
+  intros H. pose proof (rt_tbl_op_plain c tn s o dummy_id None H) as R. pose proof (render_tbl_op_name c false tn s o) as Nm.
+  destruct (render_tbl_op c false tn s o) as [path args| | | | | | |]; try contradiction.
+  destruct path as [|p [|f [|? ?]]]; try contradiction. destruct R as [-> R]. destruct Nm as [N1 N2].
+  cbn [eval_stmt]. rewrite str_eqb_refl, N1, N2. cbn [negb]. rewrite R. reflexivity.
+Qed.
+
+Lemma eval_members_plain c l : forallb (fun m => can_tbl_op c (fst (fst m)) (snd (fst m)) (snd m)) l = true ->
+  mapM (eval_stmt c) (map (fun x => SExpr (render_tbl_op c false (fst (fst x)) (snd (fst x)) (snd x))) l)
+  = Some (map (fun x => TOp (fst (fst x)) (snd (fst x)) (snd x)) l).
+Proof.
+  induction l as [|m r IH]; [reflexivity|]. cbn [forallb map mapM]. intros H. apply andb_true_iff in H. destruct H as [H1 H2].
+  rewrite eval_top_plain by assumption. cbn [obind]. rewrite IH by assumption. reflexivity.
+Qed.
+
+Lemma ident_eqb_eq a b : ident_eqb a b = true -> can_ident a = true -> can_ident b = true -> a = b.
+Proof.
+  destruct a as [s [q|]], b as [s' [q'|]]; cbn; intros H; try discriminate. intros _ _.
+  unfold ident_eqb in H. cbn in H. rewrite andb_true_r in H. apply str_eqb_eq in H. subst. reflexivity.
+Qed.
+
+Lemma eval_members_batch c tn s l :
+  forallb (fun m => can_tbl_op c (fst (fst m)) (snd (fst m)) (snd m)) l = true ->
+  forallb (fun m => ident_eqb (fst (fst m)) tn && oident_eqb (snd (fst m)) s) l = true ->
+  can_ident tn = true -> match s with Some i => can_ident i | None => true end = true ->
+  mapM (fun e => match e with
+                 | PCall [p'; f'] a => if str_eqb p' (lit "batch_op") then eval_tbl_op c true tn s f' a else None
+                 | _ => None end)
+       (map (fun x => render_tbl_op c true (fst (fst x)) (snd (fst x)) (snd x)) l) = Some l.
+Proof.
+  intros H E Ht Hs. induction l as [|[[tn' s'] o] r IH]; [reflexivity|]. cbn [forallb map mapM fst snd] in *.
+  apply andb_true_iff in H, E. destruct H as [H1 H2], E as [E1 E2]. apply andb_true_iff in E1. destruct E1 as [Ea Eb].
+  assert (tn' = tn).
+  { apply ident_eqb_eq; auto. unfold can_tbl_op in H1. apply andb_true_iff in H1. destruct H1 as [H1 _]. apply andb_true_iff in H1. tauto. }
+  assert (s' = s).
+  { unfold can_tbl_op in H1. apply andb_true_iff in H1. destruct H1 as [H1 _]. apply andb_true_iff in H1. destruct H1 as [_ Hc].
+    destruct s' as [i'|], s as [i|]; cbn in Eb; try discriminate; try reflexivity. f_equal. apply ident_eqb_eq; auto.
+    cbn in Hc. apply andb_true_iff in Hc. tauto. }
+  subst tn' s'.
+  pose proof (rt_tbl_op_batch c tn s o H1) as R.
+  destruct (render_tbl_op c true tn s o) as [path args| | | | | | |]; try contradiction.
+  destruct path as [|p [|f [|? ?]]]; try contradiction. destruct R as [-> R].
+  rewrite str_eqb_refl, R. cbn [obind]. rewrite IH by assumption. reflexivity.
+Qed.
+
+Theorem eval_render c ops : canonical (c, ops) = true -> eval_stmts c (render_ops c ops) = Some (expected c ops).
+Proof.
+  unfold canonical. cbn [fst snd]. intros H. apply andb_true_iff in H. destruct H as [Hc H].
+  unfold eval_stmts, render_ops, expected. induction ops as [|o r IH]; [reflexivity|].
+  cbn [forallb flat_map] in *. apply andb_true_iff in H. destruct H as [Ho Hr].
+  apply mapM_app; [|apply IH; exact Hr]. clear IH Hr.
+  destruct o as [t|n s ie ty|tn s o|tn s l]; cbn [render_top expected_top can_top] in *.
+  - cbn [mapM eval_stmt]. unfold render_create_table at 1. rewrite str_eqb_refl. cbn [negb]. lit_cmp.
+    pose proof (rt_create_table c t Ho) as R. unfold render_create_table in R. rewrite R. reflexivity.
+  - rewrite !andb_true_iff in Ho. destruct Ho as [[A1 A2] A3]. apply negb_true_iff in A3. subst ty.
+    cbn [mapM eval_stmt]. unfold render_drop_table. rewrite str_eqb_refl. cbn [negb]. lit_cmp. cbn [app].
+    pos_eval. cbn [obind]. rewrite (rt_id _ A1). cbn [obind]. kw_eval. rewrite rt_opt_i_truthy by assumption. cbn [obind].
+    rewrite rt_opt_b. reflexivity.
+  - cbn [mapM]. rewrite eval_top_plain by assumption. reflexivity.
+  - rewrite !andb_true_iff in Ho. destruct Ho as [[[A1 A2] A3] A4].
+    destruct l as [|m l]; [reflexivity|]. remember (m :: l) as ms.
+    destruct (cfg_batch c) eqn:B.
+    + cbn [negb orb] in A4, Hc. unfold can_cfg in Hc. rewrite B in Hc. cbn [negb orb] in Hc.
+      cbn [mapM eval_stmt]. lit_cmp. rewrite Hc. cbn [andb negb app].
+      pos_eval. cbn [obind]. rewrite (rt_id _ A1). cbn [obind]. kw_eval. rewrite rt_or_none_i by assumption. cbn [obind].
+      rewrite eval_members_batch by assumption. reflexivity.
+    + apply eval_members_plain. assumption.
+Qed.
+
+(* ================================================================ part 4: the model satisfies the property on the class *)
+Lemma list_eqb_refl {A} (e:A -> A -> bool) l : (forall x, e x x = true) -> list_eqb e l l = true.
+Proof. intros H. induction l as [|a r IH]; [reflexivity|]. cbn. rewrite H, IH. reflexivity. Qed.
+Lemma strs_eqb_refl l : strs_eqb l l = true.
+Proof. apply list_eqb_refl, str_eqb_refl. Qed.
+Lemma option_eqb_refl {A} (e:A -> A -> bool) x : (forall a, e a a = true) -> option_eqb e x x = true.
+Proof. intros H. destruct x; cbn; auto. Qed.
+Lemma bool_eqb_refl b : Bool.eqb b b = true. Proof. destruct b; reflexivity. Qed.
+
+Lemma pyexpr_eqb_refl : forall e, pyexpr_eqb e e = true.
+Proof.
+  fix IH 1. intros e. destruct e as [p args|k v|h s|b| |n d|l|l]; cbn.
+  - rewrite strs_eqb_refl. cbn. induction args as [|a r IHr]; [reflexivity|]. rewrite IH, IHr. reflexivity.
+  - rewrite str_eqb_refl, IH. reflexivity.
+  - apply str_eqb_refl.
+  - apply bool_eqb_refl.
+  - reflexivity.
+  - rewrite bool_eqb_refl, str_eqb_refl. reflexivity.
+  - induction l as [|a r IHr]; [reflexivity|]. rewrite IH, IHr. reflexivity.
+  - induction l as [|a r IHr]; [reflexivity|]. rewrite IH, IHr. reflexivity.
+Qed.
+Lemma pyexprs_eqb_refl l : pyexprs_eqb l l = true.
+Proof. induction l as [|a r IH]; [reflexivity|]. cbn. rewrite pyexpr_eqb_refl, IH. reflexivity. Qed.
+
+Lemma ident_eqb_refl i : ident_eqb i i = true.
+Proof. unfold ident_eqb. rewrite str_eqb_refl, option_eqb_refl by apply bool_eqb_refl. reflexivity. Qed.
+Lemma oident_eqb_refl i : oident_eqb i i = true. Proof. apply option_eqb_refl, ident_eqb_refl. Qed.
+Lemma idents_eqb_refl l : idents_eqb l l = true. Proof. apply list_eqb_refl, ident_eqb_refl. Qed.
+Lemma ostr_eqb_refl x : ostr_eqb x x = true. Proof. apply option_eqb_refl, str_eqb_refl. Qed.
+Lemma obool_eqb_refl x : obool_eqb x x = true. Proof. apply option_eqb_refl, bool_eqb_refl. Qed.
+Lemma cname_eqb_refl n : cname_eqb n n = true.
+Proof. destruct n; cbn; [reflexivity|apply ident_eqb_refl|apply str_eqb_refl]. Qed.
+Lemma tytok_eqb_refl t : tytok_eqb t t = true.
+Proof. unfold tytok_eqb. rewrite strs_eqb_refl, pyexprs_eqb_refl. destruct (ty_mod t); cbn; rewrite ?str_eqb_refl; reflexivity. Qed.
+Lemma sdefault_eqb_refl d : sdefault_eqb d d = true.
+Proof. destruct d; cbn; rewrite ?str_eqb_refl; try reflexivity. apply option_eqb_refl, bool_eqb_refl. Qed.
+Lemma column_eqb_refl x : column_eqb x x = true.
+Proof. unfold column_eqb. rewrite ident_eqb_refl, tytok_eqb_refl, obool_eqb_refl, !bool_eqb_refl, ostr_eqb_refl.
+  rewrite option_eqb_refl by apply sdefault_eqb_refl. reflexivity. Qed.
+Lemma tcons_eqb_refl k : tcons_eqb k k = true.
+Proof. destruct k; cbn; rewrite ?idents_eqb_refl, ?strs_eqb_refl, ?cname_eqb_refl, ?ostr_eqb_refl, ?obool_eqb_refl, ?bool_eqb_refl, ?str_eqb_refl; reflexivity. Qed.
+Lemma table_eqb_refl t : table_eqb t t = true.
+Proof. unfold table_eqb. rewrite ident_eqb_refl, oident_eqb_refl, ostr_eqb_refl, strs_eqb_refl, obool_eqb_refl.
+  rewrite !list_eqb_refl by (first [apply column_eqb_refl | apply tcons_eqb_refl]). reflexivity. Qed.
+Lemma ixexpr_eqb_refl x : ixexpr_eqb x x = true.
+Proof. destruct x; cbn; [apply ident_eqb_refl|apply str_eqb_refl]. Qed.
+Lemma tri_eqb_refl {A} (e:A -> A -> bool) t : (forall a, e a a = true) -> tri_eqb e t t = true.
+Proof. intros H. destruct t; cbn; auto. Qed.
+Lemma altercol_eqb_refl a : altercol_eqb a a = true.
+Proof. unfold altercol_eqb. rewrite ident_eqb_refl, oident_eqb_refl, !obool_eqb_refl, ostr_eqb_refl.
+  rewrite !option_eqb_refl by (first [apply tytok_eqb_refl | apply sdefault_eqb_refl]).
+  rewrite !tri_eqb_refl by (first [apply sdefault_eqb_refl | apply str_eqb_refl]). reflexivity. Qed.
+Lemma fkop_eqb_refl f : fkop_eqb f f = true.
+Proof. unfold fkop_eqb. rewrite cname_eqb_refl, ident_eqb_refl, !idents_eqb_refl, !ostr_eqb_refl, !obool_eqb_refl. reflexivity. Qed.
+Lemma tbl_op_eqb_refl o : tbl_op_eqb o o = true.
+Proof. destruct o; cbn; rewrite ?column_eqb_refl, ?ident_eqb_refl, ?altercol_eqb_refl, ?cname_eqb_refl, ?obool_eqb_refl, ?idents_eqb_refl,
+  ?ostr_eqb_refl, ?fkop_eqb_refl, ?oident_eqb_refl; try reflexivity. rewrite list_eqb_refl by apply ixexpr_eqb_refl. reflexivity. Qed.
+Lemma member_eqb_refl m : member_eqb m m = true.
+Proof. unfold member_eqb. rewrite ident_eqb_refl, oident_eqb_refl, tbl_op_eqb_refl. reflexivity. Qed.
+Lemma top_op_eqb_refl o : top_op_eqb o o = true.
+Proof. destruct o; cbn; rewrite ?table_eqb_refl, ?ident_eqb_refl, ?oident_eqb_refl, ?obool_eqb_refl, ?bool_eqb_refl; try reflexivity.
+  - apply member_eqb_refl.
+  - apply list_eqb_refl, member_eqb_refl. Qed.
+Lemma ops_eqb_refl l : ops_eqb l l = true.
+Proof. apply list_eqb_refl, top_op_eqb_refl. Qed.
+
+Theorem decider_sound i o : check_C08 i o = true -> C08_holds i o.
+Proof. unfold check_C08, C08_holds. destruct (o_parsed o) as [st|]; [|discriminate]. intros H. split; [exists st; reflexivity|exact H]. Qed.
+
+Theorem model_holds i : inclass_C08 i = true -> C08_holds i (model_C08 i).
+Proof.
+  destruct i as [c ops]. unfold inclass_C08. intros H. apply andb_true_iff in H. destruct H as [H _]. apply andb_true_iff in H. destruct H as [H _].
+  unfold C08_holds, model_C08. cbn [o_parsed o_sql_same]. split; [eexists; reflexivity|].
+  rewrite (eval_render c ops H). apply ops_eqb_refl.
+Qed.
+
+(* ================================================================ part 5: tokens separated by arbitrary whitespace
+   (used by the revision-file header of C17, whose text is modelled character by character) *)
+Section TokensW.
+  Variable printable : N -> bool.
+
+  Lemma idle_ws out w : is_ws w = true -> lex_run (LIdle, out) w = (LIdle, out).
+  Proof.
+    induction w as [|c w IH]; [reflexivity|]. cbn [is_ws forallb]. intros H. apply andb_true_iff in H. destruct H as [Hc Hw].
+    rewrite lex_run_cons. cbn [lex_step]. unfold idle_step. rewrite Hc. apply IH. exact Hw.
+  Qed.
+
+  Lemma space_char_flush out prev c : is_space c = true -> (forall t, prev = Some t -> wf_tok t = true) ->
+    lex_run (bstate printable prev, out) [c] = (LIdle, pend prev ++ out).
+  Proof.
+    intros Hc W.
+    assert (NI: is_ident_char c = false /\ is_quote c = false /\ is_digit c = false /\ is_ident_start c = false /\ (c =? 46) = false
+                /\ (c =? c_sq) = false /\ (c =? c_dq) = false).
+    { unfold is_space in Hc. repeat (apply orb_true_iff in Hc; destruct Hc as [Hc|Hc]); apply N.eqb_eq in Hc; subst; repeat split; reflexivity. }
+    destruct NI as (N1 & N2 & N3 & N4 & N5 & N6 & N7).
+    destruct prev as [[s|c'|h s|d]|]; cbn [bstate pend lex_run fold_left lex_step app].
+    - rewrite N1, N2. cbn [andb]. unfold idle_step. rewrite Hc, rev_involutive. reflexivity.
+    - unfold idle_step. rewrite Hc. reflexivity.
+    - unfold after_str. destruct s.
+      + cbn [lex_step]. assert (E: (c =? choose_quote []) = false) by exact N6. rewrite E. unfold idle_step. rewrite Hc. reflexivity.
+      + cbn [lex_step]. unfold idle_step. rewrite Hc. reflexivity.
+    - rewrite N3, N4, N5. cbn [orb]. unfold idle_step. rewrite Hc, rev_involutive. reflexivity.
+    - unfold idle_step. rewrite Hc. reflexivity.
+  Qed.
+
+  Lemma ws_flush out prev w : w <> [] -> is_ws w = true -> (forall t, prev = Some t -> wf_tok t = true) ->
+    lex_run (bstate printable prev, out) w = (LIdle, pend prev ++ out).
+  Proof.
+    destruct w as [|c w]; [congruence|]. intros _ H W. cbn [is_ws forallb] in H. apply andb_true_iff in H. destruct H as [Hc Hw].
+    change (c :: w) with ([c] ++ w). rewrite lex_run_app, space_char_flush by assumption. apply idle_ws. exact Hw.
+  Qed.
+
+  Lemma tok_step_w out prev t w :
+    (forall p, prev = Some p -> wf_tok p = true) -> wf_tok t = true -> via_repr_tok t = true -> is_ws w = true ->
+    match prev with Some p => negb (needs_space p t) || (match w with [] => false | _ => true end) | None => true end = true ->
+    lex_run (bstate printable prev, out) (w ++ tok_text printable t) = (bstate printable (Some t), done t ++ pend prev ++ out).
+  Proof.
+    intros Wp W V Hw Hs. destruct w as [|c w].
+    - cbn [app]. pose proof (tok_step printable out prev t Wp W V) as T.
+      destruct prev as [p|]; [|exact T]. rewrite orb_false_r in Hs. apply negb_true_iff in Hs. rewrite Hs in T. exact T.
+    - rewrite lex_run_app, ws_flush by (assumption || discriminate). apply text_from_idle; assumption.
+  Qed.
+
+  Lemma untokw_lex : forall l prev out tail,
+    (forall p, prev = Some p -> wf_tok p = true) -> forallb (fun wt => wf_tok (snd wt)) l = true ->
+    forallb (fun wt => via_repr_tok (snd wt)) l = true -> seps_ok prev l = true -> is_ws tail = true ->
+    lex_finish (lex_run (bstate printable prev, out) (untokw printable l tail))
+    = Ok (rev out ++ pend prev ++ map erase (map snd l)).
+  Proof.
+    induction l as [|[w t] r IH]; intros prev out tail Wp W V S T.
+    - unfold untokw. cbn [flat_map app map].
+      destruct tail as [|c tail].
+      + cbn [lex_run fold_left]. rewrite app_nil_r.
+        destruct prev as [[s|c|h s|d]|]; cbn [bstate pend lex_finish]; try (rewrite app_nil_r; reflexivity).
+        * cbn [rev]. rewrite rev_involutive. reflexivity.
+        * unfold after_str. destruct s; cbn [lex_finish]; rewrite app_nil_r; reflexivity.
+        * cbn [rev]. rewrite rev_involutive. reflexivity.
+      + rewrite ws_flush by (assumption || discriminate). cbn [lex_finish]. rewrite rev_app_distr, app_nil_r.
+        destruct prev as [[s|c'|h s|d]|]; reflexivity.
+    - cbn [forallb snd] in W, V. apply andb_true_iff in W, V. destruct W as [Wt Wr], V as [Vt Vr].
+      cbn [seps_ok] in S. apply andb_true_iff in S. destruct S as [S Sr]. apply andb_true_iff in S. destruct S as [Sw Sn].
+      unfold untokw. cbn [flat_map fst snd]. rewrite <- !app_assoc. rewrite (app_assoc w), lex_run_app.
+      rewrite (tok_step_w out prev t w Wp Wt Vt Sw Sn).
+      specialize (IH (Some t) (done t ++ pend prev ++ out) tail).
+      unfold untokw in IH. rewrite IH; [|intros p [= <-]; assumption|assumption|assumption|assumption|assumption].
+      f_equal. cbn [map snd]. rewrite !rev_app_distr, <- !app_assoc. f_equal.
+      destruct prev as [[s|c|h s|d]|], t as [s'|c'|h' s'|d']; reflexivity.
+  Qed.
+
+  Theorem lex_untokw l tail : forallb (fun wt => wf_tok (snd wt)) l = true -> forallb (fun wt => via_repr_tok (snd wt)) l = true ->
+    seps_ok None l = true -> is_ws tail = true -> py_lex (untokw printable l tail) = Ok (map erase (map snd l)).
+  Proof.
+    intros W V S T. unfold py_lex. pose proof (untokw_lex l None [] tail (fun p H => ltac:(discriminate)) W V S T) as H.
+    cbn [bstate pend rev app] in H. exact H.
+  Qed.
+End TokensW.
